@@ -47,8 +47,10 @@ PASS_THROUGH = ("ImplicitCastExpr", "ParenExpr", "ExprWithCleanups", "Materializ
 
 
 class Walker:
-    def __init__(self, fn, prefix="L_", take_then=False):
+    def __init__(self, fn, prefix="L_", take_then=False, cell_prefix=""):
         self.fn = fn
+        self.cell_prefix = cell_prefix
+        self.lazy = False          # name locals v00, v01, ... at first USE instead of at their declaration
         self.prefix = prefix
         self.take_then = take_then
         self.locals = {}       # decl id -> canonical name
@@ -79,13 +81,17 @@ class Walker:
             d = n["referencedDecl"]
             if d["id"] in self.locals:
                 return self.locals[d["id"]]
+            if self.lazy and d.get("kind") == "VarDecl":
+                self.locals[d["id"]] = "v%02d" % len(self.locals)
+                self.realname[self.locals[d["id"]]] = d.get("name", "?")
+                return self.locals[d["id"]]
             return d.get("name", "?")
         if k == "MemberExpr":
             base = self.strip(n["inner"][0])
             if base.get("kind") == "CXXThisExpr":
                 return n["name"]
             return "%s.%s" % (self.ref(base), n["name"]) if base.get("kind") != "CXXOperatorCallExpr" else \
-                "%s[%s]" % (n["name"], self.index(base["inner"][2])) if self.ref(base["inner"][1]) == "cell_data" else \
+                "%s%s[%s]" % (self.cell_prefix, n["name"], self.index(base["inner"][2])) if self.ref(base["inner"][1]) == "cell_data" else \
                 "%s[%s].%s" % (self.ref(base["inner"][1]), self.index(base["inner"][2]), n["name"])
         if k == "ArraySubscriptExpr":
             return "%s[%s]" % (self.ref(n["inner"][0]), self.index(n["inner"][1]))
@@ -201,7 +207,15 @@ class Walker:
                 self.stmt(inner[2], guards + ["!" + g])
         elif k == "ForStmt":
             init, cond, inc, body = n["inner"][0], n["inner"][2], n["inner"][3], n["inner"][4]
-            g = "for(%s;%s;%s)" % (self.gtext(init), self.gtext(cond), self.gtext(inc))
+            if init.get("kind") == "DeclStmt":
+                d = init["inner"][0]
+                if d["id"] not in self.locals:
+                    self.locals[d["id"]] = "v%02d" % len(self.locals)
+                    self.realname[self.locals[d["id"]]] = d.get("name", "?")
+                itxt = "(%s=%s)" % (self.locals[d["id"]], self.gtext(d["inner"][-1]))
+            else:
+                itxt = self.gtext(init)
+            g = "for(%s;%s;%s)" % (itxt, self.gtext(cond), self.gtext(inc))
             self.stmt(body, guards + [g])
         elif k in ("BinaryOperator", "CompoundAssignOperator") and n["opcode"] in ("=", "+=", "-=", "*=", "/="):
             lhs = self.ref(n["inner"][0])
@@ -210,6 +224,12 @@ class Walker:
             if rhs_node.get("kind") in ("CStyleCastExpr", "CallExpr", "CXXMemberCallExpr") and self.is_alloc(rhs_node):
                 self.shape.append(("alloc %s" % lhs, list(guards)))
                 return
+            if rhs_node.get("kind") in ("CXXMemberCallExpr", "CallExpr") and op == "=":
+                try:
+                    self.rexpr(n["inner"][1])
+                except Refusal:
+                    self.shape.append(("assign %s := call %s" % (lhs, self.callee_name(rhs_node)), list(guards)))
+                    return
             rhs = self.rexpr(n["inner"][1])
             if op != "=":
                 rhs = '((e "%s"%%string) %s %s)' % (lhs, op[0], rhs)
@@ -443,12 +463,61 @@ def render_mcd(items):
     return "\n".join(out) + "\n"
 
 
+# ----------------------------------------------------------------------------- read_transport: the cell set-up
+
+SETUP_CONDS = ("(max_cells<count_length)", "(max_cells<count_disp)", "(count_length==0)", "(count_disp==0)",
+               "((ishift!=0)&&((bcon_first==2)||(bcon_last==2)))")
+
+
+def setup_blocks():
+    """the statements of Phreeqc::read_transport that determine max_cells and fill cell_data[].length / .disp"""
+    src = os.path.join(vlib.REPO, "src", "phreeqcpp", "readtr.cpp")
+    objs = clang_ast(src, "read_transport")
+    fns = [o for o in objs if o.get("kind") == "CXXMethodDecl" and o.get("name") == "read_transport"
+           and any(c.get("kind") == "CompoundStmt" for c in o.get("inner", []))]
+    if len(fns) != 1:
+        raise Refusal("expected exactly one definition of Phreeqc::read_transport, found %d" % len(fns))
+    body = [c for c in fns[0]["inner"] if c.get("kind") == "CompoundStmt"][0]
+    w = Walker(fns[0], prefix="S_", cell_prefix="cell.")
+    w.lazy = True
+    picked = 0
+    w0 = Walker(fns[0])          # no locals registered: conditions are recognised by the real names
+    for st in body.get("inner", []):
+        k = st.get("kind")
+        sel = False
+        try:
+            if k == "IfStmt":
+                sel = w0.gtext(st["inner"][0]) in SETUP_CONDS
+            elif k == "BinaryOperator" and st.get("opcode") == "=":
+                sel = w0.ref(st["inner"][0]) == "max_cells"
+        except Refusal:
+            sel = False
+        if sel:
+            w.stmt(st, [])
+            picked += 1
+    if picked < 5:
+        raise Refusal("read_transport: cell set-up statements not found (%d)" % picked)
+    out = ["(* GENERATED by translator/c11_initmix.py from src/phreeqcpp/readtr.cpp (Phreeqc::read_transport). Do not edit. *)",
+           "From Coq Require Import QArith Qround ZArith String List.", "Import ListNotations.", "Open Scope Q_scope.", "",
+           "(* canonical local names: " + ", ".join("%s=%s" % (k, v) for k, v in sorted(w.realname.items())) + " *)", ""]
+    for name, expr, comment in w.leaves:
+        out.append("(* %s *)" % comment)
+        out.append("Definition %s (e : string -> Q) : Q := %s." % (name, expr))
+    out.append("")
+    out.append("Definition shape_setup : list (string * list string) := [")
+    out.append(";\n".join("  (%s, [%s])" % (coq_string(t), "; ".join(coq_string(g) for g in gs)) for t, gs in w.shape))
+    out.append("].")
+    return "\n".join(out) + "\n"
+
+
 def generate():
     text = translate()
     vlib.write_if_changed(os.path.join(vlib.COQ, "Gen", "Gen_C11_initmix.v"), text)
     vlib.write_if_changed(os.path.join(vlib.COQ, "Gen", "Gen_C11_mcd.v"), render_mcd(name_tests()))
+    vlib.write_if_changed(os.path.join(vlib.COQ, "Gen", "Gen_C11_setup.v"), setup_blocks())
 
 
 if __name__ == "__main__":
     sys.stdout.write(translate())
     sys.stdout.write(render_mcd(name_tests()))
+    sys.stdout.write(setup_blocks())
